@@ -23,7 +23,8 @@ class ElitismStep(GeneticStep):
         target_size: int,
         generation: int,
     ) -> Iterator[Individual]:
-        evaluator.evaluate(problem, population)
+        candidates = list(population)  # the population may be a one-shot iterator
+        evaluator.evaluate(problem, candidates)
         # TODO: We do not need to sort here.
-        new_population = sort_population(list(population), problem)
+        new_population = sort_population(candidates, problem)
         yield from new_population[:target_size]
